@@ -31,20 +31,23 @@ Singles ==
     V("T", <<>>), V("F", <<>>), V("N", <<>>), V("I", <<>>),
     V("t", <<0, 0, 0, 1>>), V("t", <<58462, 13440, 0, 0>>), V("t", <<58462, 13441, 32768, 0>>), V("t", <<58462, 13500, 8256, 0>>) }
 Runs == { [k |-> "run", t |-> t, start |-> s, delta |-> d, n |-> n] : t \in {"i", "h", "f"}, s \in {0 - 7, 2}, d \in {0, 0 - 3, 1}, n \in 3..7 }
-RunVals(r) == [i \in 1..r.n |-> LET x == r.start + (i - 1) * r.delta IN
+\* runs of 64-bit integers whose stride does not fit into 32 bits: value i = (shi + (i - 1) * dhi) * 2^32 + 5
+WideRuns == { [k |-> "wrun", t |-> "h", start |-> s, delta |-> d, n |-> n] : s \in {0 - 7, 2}, d \in {1, 0 - 3}, n \in 4..6 }
+RunVals(r) == IF r.k = "wrun" THEN [i \in 1..r.n |-> V("h", I32(r.start + (i - 1) * r.delta) \o <<0, 5>>)] ELSE
+              [i \in 1..r.n |-> LET x == r.start + (i - 1) * r.delta IN
                  IF r.t = "i" THEN V("i", I32(x)) ELSE IF r.t = "h" THEN V("h", I64(x)) ELSE V("f", Quarter(IF x < 0 - 4 \/ x > 8 THEN 0 ELSE x))]
 Arrays == { [t |-> "a", et |-> "i", v |-> <<>>], [t |-> "a", et |-> "i", v |-> <<V("i", I32(1)), V("i", I32(0 - 2))>>],
             [t |-> "a", et |-> "s", v |-> <<V("s", <<97>>), V("s", <<>>)>>], [t |-> "a", et |-> "T", v |-> <<V("T", <<>>), V("F", <<>>), V("T", <<>>)>>],
             [t |-> "a", et |-> "f", v |-> <<V("f", F(3))>>], [t |-> "a", et |-> "i", v |-> [i \in 1..6 |-> V("i", I32(5))]],
             [t |-> "a", et |-> "h", v |-> <<V("h", I64(0 - 19)), V("h", I64(3))>>], [t |-> "a", et |-> "c", v |-> <<V("c", I32(97))>>] }
-ItemVals(it) == IF it.k = "run" THEN RunVals(it) ELSE <<it.x>>
+ItemVals(it) == IF it.k \in {"run", "wrun"} THEN RunVals(it) ELSE <<it.x>>
 RECURSIVE Flat(_)
 Flat(its) == IF its = <<>> THEN <<>> ELSE ItemVals(Head(its)) \o Flat(Tail(its))
 OptChoices == { [lossless |-> TRUE, prec |-> p, linelen |-> w, compress |-> c] : p \in {0, 2, 9}, w \in {10, 40, 120}, c \in {0, 1} }
 Init == items = <<>> /\ opts \in OptChoices
 Next == /\ Len(items) < MaxItems
         /\ \/ \E x \in Singles \cup Arrays : items' = Append(items, [k |-> "one", x |-> x])
-           \/ \E r \in Runs : items' = Append(items, r)
+           \/ \E r \in Runs \cup WideRuns : items' = Append(items, r)
         /\ UNCHANGED opts
 Out == IF "OUT" \in DOMAIN IOEnv THEN IOEnv.OUT ELSE "none"
 Emit == Out = "none" \/ CSVWrite("%1$s", <<ToJson([list |-> Flat(items), opts |-> opts, addr |-> IF opts.prec = 2 /\ opts.linelen = 40 THEN <<47, 97, 47, 98>> ELSE <<>>])>>, Out)
